@@ -6,7 +6,6 @@ package props
 import (
 	"context"
 	"fmt"
-	"os"
 	"strings"
 	"testing"
 	"time"
@@ -167,5 +166,4 @@ func TestC08Binary(t *testing.T) {
 			return map[string]interface{}{"kind": "pool binary", "options": args, "outcome": desc}
 		})
 	})
-	os.Remove(binPath)
 }
